@@ -706,6 +706,129 @@ def racing_monitors(obs):
 COQ_IMPORTS = "From Common Require Import Str Cases.\nFrom Http Require Import Broadcast.\n"
 
 
+def py_sent(steps, c):
+    """Python mirror of Broadcast.sent: emission indices emitted while c was connected."""
+    conn, out, i = False, [], 0
+    for st in steps:
+        if st[0] == "emit":
+            if conn:
+                out.append(i)
+            i += 1
+        elif st[0] == "connect" and st[1] == c:
+            conn = True
+        elif st[0] == "disconnect" and st[1] == c:
+            conn = False
+    return out
+
+
+def is_subseq(a, b):
+    it = iter(b)
+    return all(any(x == y for y in it) for x in a)
+
+
+def settled_py_monitors(steps, drained, obs):
+    """The property predicates on one settled run (Python mirrors of the theorem statements).
+    Returns [(monitor, what, detail)]."""
+    bad = []
+    for e in obs["escaped"]:
+        bad.append(("T2_failure_contained", e, {}))
+    for c, log in obs["logs"].items():
+        sent = py_sent(steps, c)
+        if any(i < 0 for i in log):
+            bad.append(("T1_exactly_once_in_order", "received a message that is no (further) emitted event: duplicate or unknown",
+                        {"client": c, "log": log}))
+        elif not is_subseq(log, sent):
+            bad.append(("T1_exactly_once_in_order", "received is not an in-order subsequence of the events emitted while connected",
+                        {"client": c, "log": log, "sent_while_connected": sent}))
+        healthy = not any(st[0] in ("disconnect", "fail", "recover") and st[1] == c for st in steps)
+        if drained and healthy and log != sent and all(i >= 0 for i in log):
+            bad.append(("T2_isolation_complete", f"healthy client received {log} but {sent} were emitted while it was connected",
+                        {"client": c}))
+    # T3: after a client disconnected no callback is ever scheduled for it again
+    connected, ei = set(), 0
+    for st in steps:
+        if st[0] == "connect":
+            connected.add(st[1])
+        elif st[0] == "disconnect":
+            connected.discard(st[1])
+        elif st[0] == "emit":
+            tg = obs["emit_targets"][ei] if ei < len(obs["emit_targets"]) else None
+            ei += 1
+            if tg is not None and not set(tg) <= connected:
+                bad.append(("T3_nothing_after_disconnect",
+                            f"a broadcast callback was scheduled for disconnected client(s) {sorted(set(tg) - connected)}",
+                            {"emit": ei - 1, "targets": tg}))
+                break
+    for cid, i, what, raw in shape_problems(obs)[:3]:
+        name = obs["events"][i][0] if i >= 0 else "?"
+        bad.append(("T4_message_shape", what, {"client": cid, "raw": raw, "event": name}))
+    return bad
+
+
+def valid_schedule(steps):
+    connected, ever, failing = set(), set(), set()
+    for st in steps:
+        if st[0] == "connect":
+            if st[1] in ever:
+                return False
+            ever.add(st[1])
+            connected.add(st[1])
+        elif st[0] == "disconnect":
+            if st[1] not in connected:
+                return False
+            connected.discard(st[1])
+        elif st[0] == "fail":
+            if st[1] not in connected:
+                return False
+            failing.add(st[1])
+        elif st[0] == "recover":
+            if st[1] not in connected or st[1] not in failing:
+                return False
+            failing.discard(st[1])
+    return len(connected) <= 6
+
+
+_shrunk = [0]
+
+
+def report_settled(chk, rig, steps, drained, repeats, obs):
+    bad = settled_py_monitors(steps, drained, obs)
+    if not bad:
+        return
+    steps = [tuple(st) for st in steps]
+    # shrink the schedule for the first failing monitor (bounded; needs the live rig)
+    if _shrunk[0] < 3:
+        _shrunk[0] += 1
+        mon0 = bad[0][0]
+
+        def fails(cand):
+            if not valid_schedule(cand):
+                return False
+            try:
+                o = run_settled(rig, vlib.Rng(0, "c17-shrink"), cand, repeats=repeats)
+            except Exception:  # noqa: BLE001
+                return False
+            return any(m == mon0 for m, _w, _d in settled_py_monitors(cand, False, o) ) if mon0 != "T2_isolation_complete" \
+                else any(m == mon0 for m, _w, _d in settled_py_monitors(cand + [("run",)] * 40, True,
+                                                                          run_settled(rig, vlib.Rng(0, "c17-shrink"), cand + [("run",)] * 40, repeats=repeats)))
+        try:
+            small = vlib.shrink_list(steps, fails, max_steps=80)
+            if mon0 == "T2_isolation_complete":
+                small = small + [("run",)] * 40
+            o2 = run_settled(rig, vlib.Rng(0, "c17-shrink"), small, repeats=repeats)
+            bad2 = settled_py_monitors(small, drained or mon0 == "T2_isolation_complete", o2)
+            if any(m == mon0 for m, _w, _d in bad2):
+                steps, obs, bad = small, o2, bad2
+        except Exception as e:  # noqa: BLE001
+            chk.notes.append(f"shrinking failed: {e!r}")
+    for mon, what, detail in bad[:6]:
+        key = {"monitor": mon, "mode": "settled"}
+        if mon == "T4_message_shape":
+            key = {"monitor": mon, "event": detail.get("event")}
+        chk.monitor_failure(mon, key, what, {"steps": [list(st) for st in steps], "repeats": repeats, "drained": drained,
+                                             "logs": obs["logs"], **detail})
+
+
 def load_corpus():
     out = []
     for f in sorted((vlib.VERIF / "corpus" / "C17").glob("*.json")):
@@ -739,29 +862,7 @@ def settled_stage(chk, rig, n_cases):
         delivered = sum(len(v) for v in obs["logs"].values())
         nontrivial = n_emit >= 2 and n_cl >= 2 and delivered >= 2 and ({"disconnect", "fail"} & kinds)
         chk.count(1, nontrivial_key=json.dumps(steps) if nontrivial else None)
-        for e in obs["escaped"]:
-            chk.monitor_failure("T2_failure_contained", {"monitor": "T2_failure_contained", "mode": "settled"}, e,
-                                {"steps": steps})
-        # T3: after a client disconnected no callback is ever scheduled for it again
-        connected, ei = set(), 0
-        for st in steps:
-            if st[0] == "connect":
-                connected.add(st[1])
-            elif st[0] == "disconnect":
-                connected.discard(st[1])
-            elif st[0] == "emit":
-                tg = obs["emit_targets"][ei] if ei < len(obs["emit_targets"]) else None
-                ei += 1
-                if tg is not None and not set(tg) <= connected:
-                    chk.monitor_failure("T3_nothing_after_disconnect",
-                                        {"monitor": "T3_nothing_after_disconnect", "mode": "settled"},
-                                        f"a broadcast callback was scheduled for disconnected client(s) {sorted(set(tg) - connected)}",
-                                        {"steps": steps, "emit": ei - 1, "targets": tg})
-                    break
-        for cid, i, what, raw in shape_problems(obs)[:3]:
-            name = obs["events"][i][0] if i >= 0 else "?"
-            chk.monitor_failure("T4_message_shape", {"monitor": "T4_message_shape", "event": name}, what,
-                                {"steps": steps, "client": cid, "raw": raw})
+        report_settled(chk, rig, steps, drained, repeats, obs)
     for steps, drained, obs in rows[:3]:
         chk.sample({"steps": steps[:25], "logs": obs["logs"], "emit_targets": obs["emit_targets"][:6]})
     # model vs implementation, and the Gallina monitor predicates, inside Coq
@@ -872,7 +973,58 @@ def racing_stage(chk, rig, n_cases):
 
 
 def search(cf):
+    """Directed search after a broken tie: re-run the disagreeing schedule, its prefixes and
+    random sub-schedules in settled mode, looking for a run on which a property monitor
+    (Python mirrors) fails."""
+    case = cf.get("case") or {}
+    steps = case.get("steps")
+    if not steps:
+        return None
+    rig = Rig()
+    try:
+        return _search(rig, [tuple(st) for st in steps])
+    finally:
+        rig.stop()
+
+
+def _search(rig, steps):
+    rng = vlib.Rng(0, "c17-search")
+    cands = [steps + [("run",)] * 40] + [steps[:k] + [("run",)] * 40 for k in range(len(steps), 0, -max(1, len(steps) // 10))]
+    for _ in range(60):
+        sub = [st for st in steps if rng.random() < 0.8]
+        cands.append(sub + [("run",)] * 40)
+    for cand in cands:
+        if not valid_schedule(cand):
+            continue
+        try:
+            obs = run_settled(rig, rng, cand)
+        except Exception:  # noqa: BLE001
+            continue
+        bad = settled_py_monitors(cand, True, obs)
+        if bad:
+            mon, what, detail = bad[0]
+            return {"monitor": mon, "key": {"monitor": mon, "mode": "settled"}, "what": what,
+                    "case": {"steps": [list(st) for st in cand], "logs": obs["logs"], **detail}}
     return None
+
+
+def replay(chk, rig):
+    """--replay file: re-run the recorded schedule (settled) and report the monitors."""
+    data = json.loads(open(chk.replay).read())
+    case = data.get("case") or {}
+    if "steps" not in case and data.get("correspondence_failures"):
+        case = data["correspondence_failures"][0].get("case") or {}
+    steps = [tuple(st) for st in case.get("steps", [])]
+    if not steps:
+        chk.notes.append("replay file has no schedule; running the normal check")
+        return False
+    obs = run_settled(rig, chk.rng, steps, repeats=bool(case.get("repeats")))
+    chk.count(1)
+    chk.sample({"replayed_steps": [list(st) for st in steps], "logs": obs["logs"]})
+    for mon, what, detail in settled_py_monitors(steps, bool(case.get("drained", True)), obs):
+        chk.monitor_failure(mon, {"monitor": mon, "mode": "settled"}, what,
+                            {"steps": [list(st) for st in steps], "logs": obs["logs"], **detail})
+    return True
 
 
 def run(chk):
@@ -896,9 +1048,13 @@ def run(chk):
     vlib.setup_impl()
     L.quiet_logs()
     chk.search_hook = search
-    message_stage(chk)
+    # (the actor and server threads are not daemons: the rig must be stopped before the
+    # interpreter shuts down, so the directed search in finish() starts its own)
     rig = Rig()
     try:
+        if chk.replay and replay(chk, rig):
+            return
+        message_stage(chk)
         settled_stage(chk, rig, 1000 if chk.tier == "quick" else 12000)
         racing_stage(chk, rig, 120 if chk.tier == "quick" else 1500)
     finally:
